@@ -4,8 +4,6 @@ From FS Require Import Sx Model.Path Model.Stat Model.Tree Model.Hardlinks.
 Import ListNotations.
 Open Scope bool_scope.
 
-Definition orig_rep (s : stat) : list N := match st_linkname s with [] => st_path s | l => l end.
-
 (* group structure is preserved by the reset: two plain entries belonged to one link
    group (same source path) iff they end up with the same representative *)
 Definition groups_preserved (orig out : list stat) : bool :=
@@ -32,7 +30,8 @@ Definition run_1101 (input impl : sx) : sx :=
       let wf := wf_links orig in
       let holds := negb wf
                    || (sx_eqb (of_optnat (hardlink_check out)) (SL []) && sx_eqb realcheck (SL [])
-                       && only_linkname_changed orig out && groups_preserved orig out) in
+                       && only_linkname_changed orig out && groups_preserved orig out
+                       && sx_eqb (SL (map enc_stat out)) (SL (map enc_stat (reset_spec orig)))) in
       verdict m impl holds (SL [of_bool wf])
     | _, _ => v_malformed
     end
